@@ -222,3 +222,164 @@ def insert_loop_contracts(body, loops, ledger, fn):
         body = body[:ob] + "\n" + spec["spec"] + "\n" + body[ob:]
         ledger.append("loop %d: injected invariant/decreases%s" % (ordn, " + proof hints" if (start or end) else ""))
     return body
+
+
+# ---------------------------------------------------------------------------------------------
+# std-combinator desugaring (by the combinator's definition) and contract substitution for the
+# one non-std closure-taking callee (`try_or`).  Purely syntactic; every application is logged.
+R_OK, R_ERR = "core::result::Result::Ok", "core::result::Result::Err"
+O_SOME, O_NONE = "core::option::Option::Some", "core::option::Option::None"
+
+
+def _match_paren_fwd(m, i):
+    op = m[i]
+    cl = {"(": ")", "[": "]", "{": "}"}[op]
+    d = 0
+    for k in range(i, len(m)):
+        if m[k] == op:
+            d += 1
+        elif m[k] == cl:
+            d -= 1
+            if d == 0:
+                return k
+    raise ExtractError("unbalanced %s" % op)
+
+
+def _match_paren_back(m, i):
+    cl = m[i]
+    op = {")": "(", "]": "[", "}": "{"}[cl]
+    d = 0
+    for k in range(i, -1, -1):
+        if m[k] == cl:
+            d += 1
+        elif m[k] == op:
+            d -= 1
+            if d == 0:
+                return k
+    raise ExtractError("unbalanced %s" % cl)
+
+
+def receiver_start(m, dot):
+    """m: masked text; dot: index of the '.' that starts `.method(`. Returns start index of the
+    postfix-expression chain that is the receiver."""
+    i = dot - 1
+    while i >= 0 and m[i].isspace():
+        i -= 1
+    while True:
+        # consume one primary (right to left)
+        if i < 0:
+            raise ExtractError("receiver not found")
+        ch = m[i]
+        if ch in ")]":
+            i = _match_paren_back(m, i) - 1
+            # a call: the callee identifier directly precedes the paren
+            while i >= 0 and (m[i].isalnum() or m[i] == "_"):
+                i -= 1
+        elif ch == "}":
+            ob = _match_paren_back(m, i)
+            k = m.rfind("match", 0, ob)
+            if k < 0:
+                raise ExtractError("block receiver that is not a match expression")
+            return k
+        elif ch == "?":
+            i -= 1
+            continue
+        elif ch.isalnum() or ch == "_" or ch == '"':
+            if ch == '"':
+                i -= 1
+                while i >= 0 and m[i] != '"':
+                    i -= 1
+                i -= 1
+            while i >= 0 and (m[i].isalnum() or m[i] == "_"):
+                i -= 1
+        else:
+            raise ExtractError("unsupported receiver shape near %r" % m[max(0, i - 20):i + 1])
+        # what precedes the primary?
+        j = i
+        if j >= 0 and m[j] == "?":
+            continue
+        if j >= 0 and m[j] == ".":
+            i = j - 1
+            while i >= 0 and m[i].isspace():
+                i -= 1
+            continue
+        if j >= 1 and m[j] == ":" and m[j - 1] == ":":
+            i = j - 2
+            continue
+        if j >= 0 and m[j] in "&*!":
+            # unary prefix belongs to the receiver only for deref/ref; stop before it
+            return j + 1
+        # chained call formatted on the next line: "<ws> ." handled above; otherwise stop
+        return j + 1
+
+
+def _split_closure(arg):
+    a = arg.strip()
+    mm = re.match(r"^\|([^|]*)\|\s*(.*)$", a, flags=re.S)
+    if not mm:
+        return None, a
+    return mm.group(1).strip(), mm.group(2).strip()
+
+
+def desugar(body, methods, ledger, fn):
+    """methods: list of names among or_else, map_err, try_or, map_or, map_unit. Applied until no
+    occurrence is left, always rewriting the last occurrence first."""
+    for _round in range(200):
+        m = mask(body)
+        best = None
+        for meth in methods:
+            name = {"map_unit": "map"}.get(meth, meth)
+            for mm in re.finditer(r"\.\s*" + name + r"\s*\(", m):
+                if best is None or mm.start() > best[1].start():
+                    best = (meth, mm)
+        if best is None:
+            return body
+        meth, mm = best
+        op = mm.end() - 1
+        cp = _match_paren_fwd(m, op)
+        arg = body[op + 1:cp]
+        rs = receiver_start(m, mm.start())
+        recv = body[rs:mm.start()].strip()
+        pat, cbody = _split_closure(arg)
+        if meth == "or_else":
+            if pat is None:
+                raise ExtractError("%s: or_else without closure literal" % fn)
+            new = "(match %s { %s(__v) => %s(__v), %s(%s) => %s })" % (recv, R_OK, R_OK, R_ERR, pat, cbody)
+        elif meth == "map_err":
+            if pat is None:
+                if re.sub(r"\s+", "", arg) != "Into::into":
+                    raise ExtractError("%s: map_err with unsupported argument %r" % (fn, arg))
+                new = "(match %s { %s(__v) => %s(__v), %s(__e) => %s(value_error_into(__e)) })" % (recv, R_OK, R_OK, R_ERR, R_ERR)
+            else:
+                new = "(match %s { %s(__v) => %s(__v), %s(%s) => %s(%s) })" % (recv, R_OK, R_OK, R_ERR, pat, R_ERR, cbody)
+        elif meth == "try_or":
+            if pat is None or pat != "":
+                raise ExtractError("%s: try_or without `||` closure literal" % fn)
+            new = ("(match %s { Value::Null | Value::Boolean(false) => (match %s { %s(__v) => %s(__v), %s(__e) => %s(ValueError::Or(__e)) }), "
+                   "__v => %s(__v) })") % (recv, cbody, R_OK, R_OK, R_ERR, R_ERR, R_OK)
+        elif meth == "map_or":
+            # map_or(DEFAULT, |x| E)
+            depth, cut = 0, None
+            am = mask(arg)
+            for k, ch in enumerate(am):
+                if ch in "([{":
+                    depth += 1
+                elif ch in ")]}":
+                    depth -= 1
+                elif ch == "," and depth == 0:
+                    cut = k
+                    break
+            if cut is None:
+                raise ExtractError("%s: map_or with unexpected arguments" % fn)
+            dflt = arg[:cut].strip()
+            pat, cbody = _split_closure(arg[cut + 1:].strip().rstrip(","))
+            if pat is None:
+                raise ExtractError("%s: map_or without closure literal" % fn)
+            new = "(match %s { %s(%s) => %s, %s => %s })" % (recv, O_SOME, pat, cbody, O_NONE, dflt)
+        else:
+            raise ExtractError("unknown desugaring %s" % meth)
+        ledger.append("desugar .%s: `%s.%s(%s)` by definition%s" % (
+            meth, _norm(recv)[:60], meth, _norm(arg)[:60],
+            " (substituted by its Kani-verified functional contract)" if meth == "try_or" else ""))
+        body = body[:rs] + new + body[cp + 1:]
+    raise ExtractError("%s: desugaring did not terminate" % fn)
